@@ -44,9 +44,10 @@ ASSUMPTIONS = [
     'type checking is on (enable_type_check(False) scopes are not generated); sealing is not generated',
 ]
 
-UNTYPED = ('Any2', 'Writable', 'Notifier', 'Notifier', 'Bound')
+UNTYPED = ('Any2', 'Writable', 'Notifier', 'Notifier', 'Bound', 'PlainBase', 'SubNotifier',
+           'PlainBase', 'SubNotifier')
 TYPED = ('Typed', 'TypedSub', 'Inner', 'TypedNotifier', 'Required', 'ReqNotifier',
-         'ReqNotifier', 'TypedBound')
+         'ReqNotifier', 'TypedBound', 'DeepTyped')
 PARTIAL_OK = ('Required', 'ReqNotifier')
 EXCLUDED_OPS = ('seal',)
 MAY_CLONE_OPS = ('List.__imul__', 'List.*=', 'rebind[fn]')
@@ -280,7 +281,7 @@ OP_WEIGHT = {'rebind': 5.0, 'rebind[fn]': 1.0, 'set_accessor_writable': 0.4,
              'Object.__setattr__': 3.0}
 
 
-def gen_step(rng, forest):
+def gen_step(rng, forest, scope_p=None):
   nodes = [x for x in H.all_nodes(forest) if not in_hyper(forest, x[0], x[1])]
   if not nodes:
     return None, False
@@ -302,7 +303,7 @@ def gen_step(rng, forest):
     args = gen_rebind(g, node) if o.name == 'rebind' else o.gen(g, node)
     if args is None:
       continue
-    sc = [name for name, p in P_SCOPE.items() if rng.random() < p]
+    sc = [name for name, p in (scope_p or P_SCOPE).items() if rng.random() < p]
     step = {'op': o.name, 'at': [ridx, keys], 'args': args, 'scopes': sc}
     if o.name == 'rebind' and not rebind_ok(step, node):
       continue
@@ -359,14 +360,34 @@ def run_case(ctx, i):
   c = ctx.counters
   rec = Builder(random.Random(rng.random()))
   descs, forest = make_forest(rng, rec)
+  scope_p = None
+  deep = rng.random() < 0.12
+  if deep:
+    # A root with schema-bound containers nested three deep, mostly written
+    # with notifications suppressed (the caches must be kept fresh by the write
+    # path alone).
+    d = D.typed_obj(rng, 'DeepTyped', fill=0.9)
+    descs, forest = [d], [rec.build(d)]
+    scope_p = dict(P_SCOPE, notify_off=0.45)
+    c['deep_typed_cases'] += 1
   rec.adopt(forest, False)
   trace, op_names = [], []
   notified_steps = derived_changed = 0
   witness = lambda: {'forest': [str(d)[:600] for d in descs], 'history': trace[-12:]}
 
   # A freshly built forest must already be fresh.
+  # Sparse mode: between steps only some getters of some nodes are asked, so the
+  # library's memos are populated in part (a reset that relies on "nothing
+  # cached here means nothing cached above" is only visible then).
+  sparse = rng.random() < (0.8 if deep else 0.45)
+  srng = random.Random(rng.random()) if sparse else None
+  if sparse:
+    srng.sparse_mode = rng.choice(['half', 'one-fact@root', 'one-fact@some'])
+    srng.sparse_fact = rng.choice(DV.CORE)
+    c['sparse_getter_cases'] += 1
+    c['sparse_mode:' + srng.sparse_mode] += 1
   ctx.label = 'derived-getters'
-  pre_facts = DV.touch(forest, c)
+  pre_facts = DV.touch(forest, c, srng)
   for p in DV.check(forest, c, pre_facts)[:1]:
     ctx.violation('stale-derived', 'construction', str(p)[:600], witness())
     return
@@ -374,7 +395,7 @@ def run_case(ctx, i):
 
   n_steps = rng.randint(ctx.params['steps'] // 2, ctx.params['steps'])
   for _ in range(n_steps):
-    step, aliased = gen_step(rng, forest)
+    step, aliased = gen_step(rng, forest, scope_p)
     if step is None:
       break
     # Every getter has been called on every node (after the previous step,
@@ -429,7 +450,7 @@ def run_case(ctx, i):
 
     # Derived state: every getter on every node vs fresh copies.
     ctx.label = 'derived-getters'
-    post_facts = DV.touch(forest, c)
+    post_facts = DV.touch(forest, c, srng)
     stale = DV.check(forest, c, post_facts)
     ctx.label = None
     c['derived_checks'] += 1
@@ -441,7 +462,7 @@ def run_case(ctx, i):
       ridx, keys, tname, fact, live, fresh = stale[0]
       names = sorted({s[3] for s in stale})
       ctx.violation(
-          'stale-derived', mechanism(step, status, True),
+          'stale-derived', mechanism(step, status, True) + ('@sparse-getters' if sparse else ''),
           f'after step {len(trace)}: {trace[-1]}\n{len(stale)} stale answers '
           f'({names}); first: {tname} at root{ridx}{keys} {fact} = '
           f'{live[1]!r:.300}, fresh copy says {fresh[1]!r:.300}', witness())
@@ -457,7 +478,7 @@ def run_case(ctx, i):
         c['abandoned_histories'] += 1
         break
       forest[:] = new
-      pre_facts = DV.touch(forest, c)
+      pre_facts = DV.touch(forest, c, srng)
       if DV.check(forest, c, pre_facts):
         c['abandoned_histories'] += 1
         break
